@@ -40,20 +40,21 @@ func hexOf(v *big.Int) string {
 }
 
 var (
-	p64a    = new(big.Int).Sub(pow2(64), bi(59))  // largest prime below 2^64
-	p64b    = new(big.Int).Sub(pow2(64), bi(83))  // next one
-	p25519  = new(big.Int).Sub(pow2(255), bi(19)) // 2^255-19
-	big2048 = new(big.Int).Sub(pow2(2048), bi(12345))
-	k256P, _   = new(big.Int).SetString("fffffffffffffffffffffffffffffffffffffffffffffffffffffffefffffc2f", 16)
+	p64a         = new(big.Int).Sub(pow2(64), bi(59))  // largest prime below 2^64
+	p64b         = new(big.Int).Sub(pow2(64), bi(83))  // next one
+	p25519       = new(big.Int).Sub(pow2(255), bi(19)) // 2^255-19
+	big2048      = new(big.Int).Sub(pow2(2048), bi(12345))
+	big4096      = new(big.Int).Sub(pow2(4096), bi(54321))
+	k256P, _     = new(big.Int).SetString("fffffffffffffffffffffffffffffffffffffffffffffffffffffffefffffc2f", 16)
 	bls12381R, _ = new(big.Int).SetString("73eda753299d7d483339d80809a1d80553bda402fffe5bfeffffffff00000001", 16)
-	pallasP, _ = new(big.Int).SetString("40000000000000000000000000000000224698fc094cf91b992d30ed00000001", 16)
+	pallasP, _   = new(big.Int).SetString("40000000000000000000000000000000224698fc094cf91b992d30ed00000001", 16)
 )
 
 func allKs() []int {
 	if engine.Thorough() {
-		return []int{8, 31, 32, 63, 64, 65, 127, 128, 255, 256, 1023, 1024}
+		return []int{8, 16, 31, 32, 33, 63, 64, 65, 127, 128, 129, 255, 256, 257, 511, 512, 1023, 1024, 2047, 2048}
 	}
-	return []int{8, 31, 63, 64, 65, 127, 128, 256, 1024}
+	return []int{8, 63, 64, 65, 128, 256, 1024}
 }
 
 func dedupSort(vs []*big.Int) []*big.Int {
@@ -72,6 +73,9 @@ func natV() []*big.Int {
 	vs := []*big.Int{bi(0), bi(1), bi(2), bi(3), bi(5), bi(7), bi(59), bi(561),
 		bi(59 * 61), bi(59 * 59), bi(6), bi(118), new(big.Int).Mul(pow2(64), bi(3)),
 		new(big.Int).Mul(p64a, p64b), new(big.Int).Mul(p64a, p64a), p64a, big2048}
+	if engine.Thorough() {
+		vs = append(vs, big4096, bi(4), bi(9), bi(15), bi(255*257), p25519, bls12381R)
+	}
 	for _, k := range allKs() {
 		vs = append(vs, new(big.Int).Sub(pow2(k), bi(1)), pow2(k), new(big.Int).Add(pow2(k), bi(1)))
 	}
@@ -102,7 +106,7 @@ func intV() []*big.Int {
 	return vs
 }
 
-// intVmid is a signed alphabet without the very large values, for the quadratic sections of the wrapper types.
+// signed returns the alphabet with the negatives of its non-zero members added.
 func signed(vs []*big.Int) []*big.Int {
 	var out []*big.Int
 	for _, v := range vs {
@@ -209,7 +213,7 @@ func init() {
 }
 
 func TestCheck(t *testing.T) {
-	engine.Rule("operation table x every operand tuple over the boundary alphabet V={0,1,2,3,5,7,59,561,59*61,59^2,6,118,3*2^64,p64a*p64b,p64a^2,p64a,2^2048-12345} u {2^k-1,2^k,2^k+1 : k in K} (K={8,31,63,64,65,127,128,256,1024} quick; +{32,255,1023} thorough; negatives added for signed types) x operand capacity shape {exact,+1,+64,truncating} x output capacity {-1,need-1,need,need+1,need+64} x aliasing {distinct,out=lhs,out=rhs,lhs=rhs,all equal}; modular sqrt: every residue class (and its +m lift) of every prime<200, of 2, and of {4,6,8,9,15,21,35,49,77,561}; Jacobi: every |a|<=60 x odd n<60 plus V± x odd V; prime generation: listed bit lengths x forms x 2 seeds. A case is distinct by (op, operands, shapes, capacity, alias) and non-trivial when the library call returned and was compared with math/big.")
+	engine.Rule("operation table x every operand tuple over the boundary alphabet V={0,1,2,3,5,7,59,561,59*61,59^2,6,118,3*2^64,p64a*p64b,p64a^2,p64a,2^2048-12345} u {2^k-1,2^k,2^k+1 : k in K} (K={8,63,64,65,128,256,1024} quick; K={8,16,31,32,33,63,64,65,127,128,129,255,256,257,511,512,1023,1024,2047,2048} and 7 more values incl. a 4096-bit odd in thorough; negatives added for signed types) x operand capacity shape {exact,+1,+64,truncating} x output capacity {-1,need-1,need,need+1,need+64} x aliasing {distinct,out=lhs,out=rhs,lhs=rhs,all equal}; output pre-state {fresh, junk, result of a reduction by another modulus}; modular sqrt: every residue class (and its +m lift) of every prime<200 (2000 thorough), of 2, and of {4,6,8,9,15,21,35,49,77,561} (every composite<200 thorough) plus a boundary alphabet modulo 10 large primes; Jacobi: every |a|<=60 x odd n<60 (500 thorough) plus V± x (V without 0); modular/crt/znstar: every residue (pair) for the small moduli (N<=300 / N^2<=1300 thorough, CRT products<=4000, unit groups of 35,143,323,1225), boundary alphabets for 64..2048-bit ones; prime generation: bit lengths {16,17,20,32,33,64,128,256} (+{24,63,65,100,512} thorough) x forms {plain,blum,safe,pair,blum-pair,safe-pair,random-range} x 2 seeds. A case is distinct by (op, operands, shapes, capacity, alias) and non-trivial when the library call returned and was compared with math/big.")
 	engine.Assume("math/big is correct", "purego build of the library (saferith back end); the cgo/BoringSSL back end is not decided", "operands outside the alphabets are not explored", "prime generation is a randomized search: only the postcondition of what it returns for 2 fixed seeds per shape is decided")
 
 	q, th := 3*time.Minute, 30*time.Minute
